@@ -29,6 +29,7 @@ Skipped(ev) ==
 Step(ev) ==
   IF "obs" \notin DOMAIN ev THEN FALSE ELSE      \* crash/hang record: never a behaviour
   IF ev.a # "init" /\ ev.obs.ret = "skipped" THEN Skipped(ev) ELSE
+  IF ev.a # "init" /\ HasHuge(ev.arg) THEN HugeCall(ev.a, ev.arg) ELSE   \* argument at the limits: refused
   CASE ev.a = "init"       -> Reset
     [] ev.a = "new"        -> New(ev.arg.h, ev.arg.data, ev.arg.imm = 1, ev.arg.nc = 1, ev.arg.typ)
     [] ev.a = "append"     -> ArrAppend(ev.arg.h, ev.arg.data, ev.arg.zero)
